@@ -304,8 +304,17 @@ func execC01(p *C01Plan, rc *simkit.RunCtx) {
 			}
 			if rd.Twice {
 				done := make(chan error, 2)
-				go func() { done <- modules.ManageModules() }()
-				go func() { done <- modules.ManageModules() }()
+				pass := func(n int) {
+					err := modules.ManageModules()
+					if err == nil && !rc.Failed() {
+						// nothing is toggled while the two passes run: each one that reports success must
+						// leave exactly the wanted modules online
+						s.checkOnline(fmt.Sprintf("concurrent ManageModules round %d (at the return of pass %d)", ri, n))
+					}
+					done <- err
+				}
+				go pass(1)
+				go pass(2)
 				e1, e2 := <-done, <-done
 				rc.H("Manage2 %d err=%v,%v", ri, e1 != nil, e2 != nil)
 				if e1 != nil || e2 != nil {
